@@ -76,13 +76,14 @@ for _pid, (_cat, _sec, _what, _extra) in _R.items():
         text=RCOMMON + _what + _extra, note=RTB, design=_sec)
 
 CHECKS["C07"] = dict(
-    technique="Coq theorems by computation over a bounded domain (bound in the statement) on a literal Gallina model of the diff + differential correspondence against the real map_keyed/map_indexed + python oracle",
-    text=("ListMap/Keyed.v models the update closures of map_keyed and map_indexed literally (vectors updated by index, HashMap as association list, the new_indices / "
-          "new_indices_next chaining, the three fast paths). BOUNDED theorems, proved by vm_compute with the bound in the statement: for every pair of duplicate-free key lists over "
-          "5 keys (326 x 326) and every chain of three updates over 4 keys (65^3) the keyed step produces exactly the specification's output vector, event list (disposals of leavers, "
-          "then creations in input order) and keeps the state invariant; for every pair of lists of length <= 4 over 3 items the indexed step recomputes exactly the changed or new "
-          "positions and disposes exactly the replaced or truncated ones. The unbounded refinement theorem is not proved. The model is compared with the real functions on ~4000 (quick) / "
-          "~17000 (thorough) chains incl. duplicate-key chains, and a python restatement of the property judges the implementation's output (outputs, map_fn calls, cleanups, live item scopes)."),
+    technique="Coq proof (phase invariants of the keyed diff, induction for the indexed one; no bound) of refinement to the specification on a literal Gallina model + differential correspondence against the real map_keyed/map_indexed + python oracle",
+    text=("ListMap/Keyed.v models the update closures of map_keyed and map_indexed literally (vectors updated by index, HashMap as association list, the new_indices / new_indices_next chaining, the three fast "
+          "paths). PROVED for ALL states satisfying the state invariant and ALL new lists (axiom-free): one keyed update with unique keys produces exactly the specification's output vector, event list (disposals "
+          "of leavers, then creations in input order) and next id, never hits an unwrap / index panic and re-establishes the invariant (C07_keyed_refines), hence every chain of duplicate-free updates from the "
+          "initial state refines the specification step by step (C07_keyed_chain) and its event log is a legal history: each call id created once, each scope disposed at most once and only after its creation, "
+          "live scopes = scopes of the current output (C07_keyed_history); one indexed update recomputes exactly the changed or new positions and disposes exactly the replaced or truncated ones, for every chain "
+          "(C07_indexed_refines, C07_indexed_chain). Counterexamples show both uniqueness hypotheses are needed (duplicate keys leak a scope in model and code alike). The model is compared with the real functions "
+          "on ~4000 (quick) / ~17000 (thorough) chains incl. duplicate-key chains, and a python restatement of the property judges the implementation's output (outputs, map_fn calls, cleanups, live item scopes)."),
     note=TB + "HashMap/Vec/NodeHandle are modelled; map_fn is abstracted to a fresh call id plus a scope.",
     design="5.C07")
 
@@ -100,12 +101,14 @@ CHECKS["C19"] = dict(
 
 SSRNOTE = TB + "the HTML tokenizer of Ssr/Html.v as the reading of the HTML standard for the emitted subset; html-escape is modelled from its tables and compared on every run; raw-text elements, inner_html, duplicate attribute names, CR/NUL and full-parser tree fix-ups are outside the vocabulary."
 CHECKS["C08"] = dict(
-    category="other",
-    technique="executable Gallina model of the SSR renderer + Gallina HTML tokenizer as parse-back specification + byte-exact differential correspondence; round-trip theorem in progress",
-    text=("Ssr/View.v models the server-side build of the shared view vocabulary (elements incl. void/SVG/custom, static and dynamic text, dynamic views, Show, Keyed/Indexed, components, "
-          "NoHydrate/NoSsr, static/dynamic/None/boolean attributes, hydration keys) and render_recursive; every run compares the model's bytes with render_to_string's bytes on ~2400 (quick) / "
-          "~35000 (thorough) views incl. every string of length <= 2/3 over a metacharacter alphabet in each kind of slot, and applies the Gallina tokenizer of Ssr/Html.v to the REAL output: it must "
-          "tokenize back to the view that was built (python reference token stream). The unbounded theorem tokenize (render t) = tokens t is not proved yet: claimed level `other`."),
+    technique="Coq proof (round trip tokenize (render t) = tokens t by induction over the tree, lexer lemmas, fuel sufficiency; no bound) on a Gallina model of the SSR renderer with a Gallina HTML tokenizer as parse-back specification + byte-exact differential correspondence + oracle on the real bytes",
+    text=("Ssr/View.v models the server-side build of the shared view vocabulary (elements incl. void/SVG/custom, static and dynamic text, dynamic views, Show, Keyed/Indexed, components, NoHydrate/NoSsr, "
+          "static/dynamic/None/boolean attributes, hydration keys) and render_recursive. PROVED for EVERY view and state with ARBITRARY byte strings as texts and attribute values (Ssr/RoundTrip.v, axiom-free): "
+          "the output tokenizes back to exactly the tokens of the tree that was built (C08_render_roundtrip, C08_render_to_string_roundtrip); the structural tokens (tags, attribute names, end tags, comments) depend "
+          "only on the tree with every string erased, so text and attribute values cannot introduce elements, attributes or comments (C08_injection_safe, _2); void elements get no end tag; false boolean, "
+          "false dynamic boolean and None attributes leave the output unchanged. Hypothesis wf_view: tag and attribute names are names (sycamore takes them from static identifiers and never escapes them; "
+          "counterexamples show each clause is needed) -- the check evaluates wf_view on every generated view. Every run compares the model's bytes with render_to_string's bytes on ~2400 (quick) / ~35000 (thorough) "
+          "views incl. every string of length <= 2/3 over a metacharacter alphabet in each kind of slot, and applies the Gallina tokenizer to the REAL output: it must tokenize back to the view that was built."),
     note=SSRNOTE, design="5.C08")
 CHECKS["C12"] = dict(
     technique="Coq proofs on the SSR build model (key discipline) and on the runtime model (reinit) + byte-exact differential correspondence over render sequences + oracle",
@@ -113,7 +116,7 @@ CHECKS["C12"] = dict(
           "and lie between the counter before and after (C12_keys_in_creation_order, C12_keys_unique, for every view, state and nesting); Root::reinit leaves exactly one live node, an empty queue, "
           "no tracker, no pending batch and restarted ids whatever the previous state (C12_reinit_fresh). History independence of sync renders is what the correspondence establishes: in sequences of "
           "2-5 renders the real bytes equal the model's bytes (a pure function of state and view) at every position, the same view renders identically after different histories, keys are unique and "
-          "ordered, and the live node count at the start of every render is constant. Blocking / streaming renders are covered by C13's check only."),
+          "ordered, and the live node count at the start of every render is constant. Sequences mixing sync, blocking and streaming renders (with complete and incomplete gate schedules) get the oracle only: same (mode, view, completion order) => same bytes after any history, keys unique per render and dense per suspense scope, constant node count per mode."),
     note=SSRNOTE, design="5.C12")
 
 ATB = TB + "tokio's LocalSet, futures::Abortable and oneshot channels are replaced by explicit schedules and three-line transition rules (compared on every run, not verified)."
@@ -124,8 +127,12 @@ CHECKS["C13"] = dict(
           "registered under it (CInv, established by init and preserved by every step: C14_counter_invariant_reachable) and therefore is_loading = some unfinished task under the boundary or an "
           "enclosing one (C13_is_loading_iff_pending); the report is a function of the set of unfinished tasks, hence independent of completion order (C13_report_depends_on_pending_set). Every run "
           "drives the real create_suspense_scope / create_suspense_task / is_loading / use_is_loading on a current-thread tokio runtime with explicit schedules over 8 shapes of trees of <= 3 "
-          "boundaries, ALL orders in which <= 5 awaits complete, and compares every observation with the model; the oracle restates the iff on the observed flags. PARTIAL: the rendering half "
-          "(blocking returns only when all tasks finished; streaming emits shell once, each boundary once, parent first) has no theorem."),
+          "boundaries, ALL orders in which <= 5 awaits complete, and compares every observation with the model; the oracle restates the iff on the observed flags. Rendering half: Async/Stream.v models sync / blocking / "
+          "streaming SSR over views of nested, sibling and dynamically created boundaries with gated async components; it is compared with the REAL render_to_string / render_to_string_await_suspense / "
+          "render_to_string_stream (ssr-driver, gates opened in every order, incl. incomplete schedules) on 104 (quick) / 122+ (thorough) (view, order) pairs: step at which the blocking render returns and its "
+          "content, which boundaries are streamed after which gate, final document; the oracle simulates the inline script on the real chunks (a fragment whose markers are not yet in the document = child "
+          "before parent), checks shell once, each boundary once, shell + fragments = blocking result = everything resolved. Found and fixed F14 (grandchild streamed before its parent). Theorems for the "
+          "rendering half are in progress (PARTIAL)."),
     note=ATB, design="5.C13")
 CHECKS["C14"] = dict(
     technique="Coq proof (absorbing task status, panic-freedom and counter invariant, by induction over all schedules) on the transition system + fault enumeration (a disposal at every step for every scope) against the real executor + oracle",
@@ -148,13 +155,15 @@ CHECKS["C15"] = dict(
 DTB = ("Trusted: the in-process DOM harness/dom/shims (web-sys / js-sys / wasm-bindgen stand-ins: WHATWG pre-insert / remove / replace, fragment flattening, an HTML parser for server output) in place of a browser; "
        "tools/domgen.py, which regenerates the crate root of the client build from /repo's lib.rs with the client polarity so that dom_node.rs / hydrate_node.rs / iter.rs / components.rs etc. are compiled verbatim; the drivers and python oracles. ")
 CHECKS["C06"] = dict(
-    technique="Coq theorem by computation over a bounded domain (bound in the statement) on a literal Gallina model of reconcile_fragments + differential correspondence against the real routine on an in-process DOM + oracle",
+    technique="Coq proof (loop invariant, all seven branches, termination measure; no bound) on a literal Gallina model of reconcile_fragments + differential correspondence against the real routine on an in-process DOM + oracle, incl. chains through the real Keyed / Indexed",
     text=("Dom/Reconcile.v models reconcile_fragments branch by branch over an abstract child list (move semantics of insertBefore / replaceChild, the one-shot map, the in-place write of the swap branch). "
-          "BOUNDED theorems by vm_compute, bound in the statement: for every duplicate-free old sequence over 5 nodes x every duplicate-free new sequence over those and one new node (638k pairs), called with the end "
-          "marker as Keyed / Indexed do, between siblings: children afterwards = pre ++ new ++ post and every touched node belongs to old or new; the same without the marker over 4 + 2 nodes. The unbounded theorem is not "
-          "proved. The model is compared with the REAL routine (through the add-only hook verif_reconcile_fragments, compiled natively against the DOM shims) on ~12k (quick) / ~125k (thorough) cases incl. random "
-          "sequences of length 5-40 biased to each branch; the oracle checks children, detachment of leavers and that nothing outside the region is touched. Chains through the real Keyed / Indexed components are part of C05's check."),
-    note=DTB, design="5.C06")
+          "PROVED for ALL old / new node sequences and siblings (Dom/ReconcileProof.v, 1300 lines, axiom-free): if the child list before (pre ++ a ++ post) and the demanded list after (pre ++ b ++ post) are "
+          "duplicate-free and a is non-empty, the routine raises no DOM exception, terminates within its fuel, leaves exactly pre ++ b ++ post and touches only nodes of a or b (C06_reconcile_spec, C06_reconcile_correct; "
+          "C06_reconcile_correct_marker for the call pattern of Keyed / Indexed, where the end marker makes a non-empty); counterexamples show each hypothesis is needed. The model is compared with the REAL routine "
+          "(through the add-only hook verif_reconcile_fragments, compiled natively against the DOM shims) on ~12k (quick) / ~125k (thorough) cases incl. random sequences of length 5-40 biased to each branch; "
+          "part 2 drives the real Keyed / Indexed components through chains of 2-4 list updates (all chains of 3 lists over 3 keys in thorough) on the in-process DOM: region = fresh render of the new list, "
+          "retained items (same key / same position and value) and outside nodes keep their DOM node."),
+    note=DTB + " The link from Keyed / Indexed (get_nodes_between + end marker) to the routine's arguments is covered by part 2, not by a theorem.", design="5.C06")
 CHECKS["C05"] = dict(
     category="other",
     technique="differential check of the real client back end on an in-process DOM: in-place updates vs a fresh render by the same code, plus an identity oracle; no theorem yet",
